@@ -187,7 +187,33 @@ func TestVerifWaitConcurrent(t *testing.T) {
 		if bad.Load() > 0 {
 			tr.viol(fmt.Sprintf("C20: after Wait returned the accounted size exceeded MaxSize %d times", bad.Load()))
 		}
+		// Wait racing Close, and Wait on the closed store, must return too
+		var wg2 sync.WaitGroup
+		for i := 0; i < 4; i++ {
+			wg2.Add(1)
+			go func(i int) {
+				defer wg2.Done()
+				for j := 0; j < 20; j++ {
+					s.Set(900000+i*100+j, j, 1, 0)
+					s.Wait()
+				}
+			}(i)
+		}
+		time.Sleep(time.Duration(c%5) * 100 * time.Microsecond)
 		s.Close()
+		fin2 := make(chan struct{})
+		go func() {
+			wg2.Wait()
+			for j := 0; j < 32; j++ {
+				s.Wait()
+			}
+			close(fin2)
+		}()
+		select {
+		case <-fin2:
+		case <-time.After(10 * time.Second):
+			tr.viol("C20: Wait calls overlapping or following Close did not all return within 10 s")
+		}
 		tr.op("trial", ss("99", i64(int64(g))), ss("-1"))
 	}
 }
